@@ -384,13 +384,36 @@ def correspondence(ctx):
 
 
 def replay(ctx, check, case):
+    if check == 'write_set':
+        return check_write_sets(ctx, int(case.get('seed', 5)))
     check_history(ctx, case)
+
+
+# helpers documented as working in place (the declared write sets of the Lean model `Effects` list
+# exactly these: theorem `inPlace_calls`)
+DOCUMENTED_IN_PLACE = {'Basis.normalize(copy=False)', 'Basis.tidyup', 'util.remove_float_errors'}
+
+
+def check_write_sets(ctx, seed):
+    """the measurement of the `effects` correspondence judged WITHOUT the Lean model (it runs also when the
+    model does not build): no API call may change caller-owned data — argument arrays, basis data, arrays
+    returned earlier, pulse definitions — unless it is a helper documented as in place"""
+    from . import c18_effects
+    res = c18_effects.run(seed)
+    for n in sorted(res):
+        owned = res[n] & {'argArray', 'argBasisData', 'returned', 'pulseDef'}
+        ctx.count(('write_set', n, seed))
+        if owned and n not in DOCUMENTED_IN_PLACE:
+            ctx.fail('write_set', {'api': n, 'seed': seed}, sorted(res[n]), 'caller-owned data untouched',
+                     {'api': n}, f'{n} modified caller-owned data: {sorted(owned)}')
 
 
 def search(ctx, deep=False):
     rng = ctx.rng('deep' if deep else 'search')
     n = {('quick', False): 30, ('quick', True): 120, ('thorough', False): 200,
          ('thorough', True): 600}[(ctx.tier, deep)]
+    if deep or not getattr(ctx, 'model_ok', True):
+        check_write_sets(ctx, 5 + ctx.seed)
     for i in range(n):
         case = {'seed': int(rng.integers(0, 2**31)), 'length': int(rng.integers(8, 30))}
         check_history(ctx, case)
